@@ -32,6 +32,13 @@ type ClockCase struct {
 	CeilingNs  int64       `json:"ceiling_ns,omitempty"`
 	Sleeps     []SleepCall `json:"sleeps"`
 	TRO        string      `json:"tro,omitempty"`
+	// Via says how the sleeps are reached: "" = written directly in the
+	// evaluated source; "fn-other-ctx" = through a function that was defined
+	// by an earlier evaluation under a DIFFERENT (background / cancel-only /
+	// already cancelled) context; "root-ctx" = the environment also carries a
+	// root context installed with WithContext, different from the call's
+	Via    string `json:"via,omitempty"`
+	OldCtx string `json:"old_ctx,omitempty"` // background | cancelled | deadline-past | long-deadline
 }
 
 type clockEngine struct {
@@ -159,6 +166,10 @@ func (e *clockEngine) Gen(r *Rand, tier string) any {
 	}
 	c.CtxKind = kinds[r.Pick(w)]
 	c.TRO = PickStr(r, []string{"", "", "debugger"})
+	if c.CtxKind != "none" && r.Chance(1, 3) {
+		c.Via = PickStr(r, []string{"fn-other-ctx", "root-ctx"})
+		c.OldCtx = PickStr(r, []string{"background", "cancelled", "deadline-past", "long-deadline"})
+	}
 	c.CeilingNs = []int64{0, 0, -1, 30 * int64(time.Minute), hourNs, 2 * hourNs, 1, int64(time.Second)}[r.Intn(8)]
 	span := []int64{1, 1000, int64(time.Second), int64(7 * time.Minute), hourNs, 3 * hourNs, 30 * 24 * hourNs}[r.Intn(7)]
 	pickT := func() int64 { return 1 + r.I63n(span*2) }
@@ -237,7 +248,11 @@ func clockProgram(c *ClockCase) string {
 	var b strings.Builder
 	h := "(handler-bind ((condition (lambda (c &rest d) c)))"
 	for i, s := range c.Sleeps {
-		call := "(time:sleep " + durLit(s.DNs)
+		sleepFn := "time:sleep"
+		if c.Via == "fn-other-ctx" {
+			sleepFn = "nap"
+		}
+		call := "(" + sleepFn + " " + durLit(s.DNs)
 		if s.MaxBad != "" {
 			call += " :max 5"
 		} else if s.HasMax {
@@ -316,6 +331,45 @@ func (e *clockEngine) runInBubble(c *ClockCase, st *Stats) *Violation {
 		}
 	}()
 	src := clockProgram(c)
+	// a context that belongs to an EARLIER evaluation (or to the root environment)
+	oldCtx := func() context.Context {
+		switch c.OldCtx {
+		case "cancelled":
+			x, cancel := context.WithCancel(context.Background())
+			cancel()
+			return x
+		case "deadline-past":
+			x, cancel := context.WithDeadline(context.Background(), start.Add(-time.Second))
+			stops = append(stops, cancel)
+			return x
+		case "long-deadline":
+			x, cancel := context.WithDeadline(context.Background(), start.Add(1000*time.Hour))
+			stops = append(stops, cancel)
+			return x
+		}
+		return context.Background()
+	}
+	switch c.Via {
+	case "fn-other-ctx":
+		// the sleeping function is defined under another context; only its definition happens there
+		def := "(defun nap (d &key max) (if max (time:sleep d :max max) (time:sleep d)))"
+		var o Outcome
+		if c.OldCtx == "cancelled" || c.OldCtx == "deadline-past" {
+			// a dead context cannot evaluate anything: define under a live one that is cancelled afterwards
+			x, cancel := context.WithCancel(context.Background())
+			o = w.Call(func() *lisp.LVal { return w.Env.LoadStringContext(x, "def", def) })
+			cancel()
+		} else {
+			o = w.Call(func() *lisp.LVal { return w.Env.LoadStringContext(oldCtx(), "def", def) })
+		}
+		if o.IsErr {
+			return Violf("harness", "defining nap: %s", o.Result())
+		}
+		w.Events = nil
+		stamps = nil
+	case "root-ctx":
+		lisp.WithContext(oldCtx())(w.Env)
+	}
 	var out Outcome
 	if ctx == nil {
 		out = w.Call(func() *lisp.LVal { return w.Env.LoadString("clock", src) })
